@@ -66,6 +66,7 @@ pub const PROPS: &[PropInfo] = &[
     PropInfo { id: "C05", subsystem: "s1", runs: (5_000, 300_000), rule: "as C01 with 2-4 workers, block sizes 1-8, all scheduling policies, panics in model code, timeouts; plus the job-market facade workload", oracle: "no deadlock, termination within the step budget, same evaluated set and verdicts as the single-threaded run, no state evaluated twice or lost, a worker panic surfaces from join", real: S1_REAL, stub: S1_STUB, bounds: S1_BOUNDS },
     PropInfo { id: "C11", subsystem: "s1", runs: (6_000, 400_000), rule: "as C01 with eventually-properties on forests and general graphs", oracle: "reported => a maximal never-satisfying in-boundary path exists (reference graph search); on forests with completed exhaustive runs also <=", real: S1_REAL, stub: S1_STUB, bounds: S1_BOUNDS },
     PropInfo { id: "C12", subsystem: "s1", runs: (5_000, 300_000), rule: "as C01 over the cross product of finish condition x targets x depth x timeout x threads x strategy, with virtual-clock timeouts, wall-clock jumps and counter-tail models", oracle: "HasDiscoveries::matches == reference predicate; early stop justified; target and depth honoured; after timeout expiry (faults stopped) join returns within a bounded number of fair steps; unexpired timeout changes nothing and nobody blocks on a lock whose owner sleeps; seed replays first trace", real: S1_REAL, stub: S1_STUB, bounds: S1_BOUNDS },
+    PropInfo { id: "C19", subsystem: "s1x", runs: (5_000, 300_000), rule: "one case = a generated graph model checked by the real on-demand checker (1-3 workers, block sizes 1-1500) behind the Explorer's request handlers (called directly, without the HTTP server), with a seeded script of 1-10 requests (states for valid / mutated / unparsable fingerprint paths, status, check_fingerprint for pending and bogus states) issued by a simulated browser thread between quiescent points while 0-2 other browser threads poll status, then run-to-completion; plus Path API calls on a reference walk; distinct = distinct hash of scheduling decisions and hook events; non-trivial = at least one state evaluated or >= 30 steps", oracle: "states lists exactly the model's actions at the final state in order with successor state and fingerprint (ignored actions without); 404 <=> the sequence denotes no execution; status counts lie between the checker's counts before and after, every property path decodes to a genuine witness; a requested pending state is evaluated and its successors become generated; after run-to-completion is_done and evaluated set / verdicts equal the reference; from_actions / encode / into_* / from_fingerprints / final_state agree with the reference walk and reject non-executions", real: S1_REAL, stub: &["OS thread scheduling, clocks", "tiny_http server and the routing match (the handlers behind the routes are called directly)", "ui/app.js (never executed)", "the model under check (generated graphs)"], bounds: "<= 30 states, 1-3 workers, <= 10 requests, <= 2 polling browser threads" },
     PropInfo { id: "C13", subsystem: "s1", runs: (6_000, 400_000), rule: "single-worker BFS on generated graphs with every block size", oracle: "visit depths non-decreasing and equal to the reference shortest distance; witness length == shortest distance to a witnessing state", real: S1_REAL, stub: S1_STUB, bounds: S1_BOUNDS },
 ];
 
@@ -80,6 +81,7 @@ pub fn run_case(prop: &str, seed: u64) -> (RunReport, Value) {
     }
     match info(prop).map(|i| i.subsystem) {
         Some("s1") => crate::s1::run_case(prop, seed),
+        Some("s1x") => crate::s1::explorer::run_case(seed),
         Some("s2") => crate::s2::run_case(prop, seed),
         Some("s4") => crate::s4::run_case(prop, seed),
         Some("s3") => crate::s3::run_case(prop, seed),
@@ -93,6 +95,7 @@ pub fn replay(prop: &str, scenario: &Value) -> Result<RunReport, String> {
     }
     match info(prop).map(|i| i.subsystem) {
         Some("s1") => crate::s1::replay(prop, scenario),
+        Some("s1x") => crate::s1::explorer::replay(scenario),
         Some("s2") => crate::s2::replay(prop, scenario),
         Some("s4") => crate::s4::replay(prop, scenario),
         Some("s3") => crate::s3::replay(prop, scenario),
@@ -106,6 +109,7 @@ pub fn summary(prop: &str, scenario: &Value) -> Value {
     }
     match info(prop).map(|i| i.subsystem) {
         Some("s1") => crate::s1::summary(scenario),
+        Some("s1x") => crate::s1::explorer::summary(scenario),
         Some("s2") => crate::s2::summary(scenario),
         Some("s4") => crate::s4::summary(scenario),
         Some("s3") => crate::s3::summary(scenario),
@@ -119,6 +123,7 @@ pub fn shrink_candidates(prop: &str, scenario: &Value) -> Vec<Value> {
     }
     match info(prop).map(|i| i.subsystem) {
         Some("s1") => crate::s1::shrink_candidates(scenario),
+        Some("s1x") => crate::s1::explorer::shrink_candidates(scenario),
         Some("s2") => crate::s2::shrink_candidates(scenario),
         Some("s4") => crate::s4::shrink_candidates(scenario),
         Some("s3") => crate::s3::shrink_candidates(scenario),
